@@ -5,7 +5,7 @@ import re
 from .. import build, framework as fw, markers, trees, reqmodel
 from ..sexp import S, unS, dump
 
-PIECES = [';', '#', '@', '[', ']', '$', '{', '}', ' ', '\t', 'a', '/', ':', '${VERIF_V}', '${VERIF_UNSET}', '${PROJECT_ROOT}', '${verif_v}', '$VERIF_V', '${VERIF_V', '${}', '%20', 'é', '　', '\n', '?q=1', '.']
+PIECES = [';', '#', '@', '[', ']', '$', '{', '}', ' ', '\t', 'a', '/', ':', '${VERIF_V}', '${VERIF_UNSET}', '${PROJECT_ROOT}', '${3RD_V}', '${9}', '${_U}', '${verif_v}', '$VERIF_V', '${VERIF_V', '${}', '%20', 'é', '　', '\n', '?q=1', '.']
 BASES = ['https://h/p', 'file:///a/b', 'git+https://h/r@v1', 'https://h', '${VERIF_V}', 'https://${VERIF_V}/p', 'hg+static-http://h/repo@v1', 'x-y.z+w://h/p']
 CONTEXTS = ['', ' ', " ; os_name == 'a'", ";os_name == 'a'", "; os_name == 'a'", " ;os_name == 'a'", ' #c', '# c', ' # c', '#c', '\n', "\n; os_name == 'a'", ' x', '　;os_name=="a"']
 ENVS = [None, 'x', 'a b', ' ;', '', 'é', 'https://q/', '${VERIF_V}', '#', '${VERIF_W}', 'a${VERIF_W}b/${VERIF_UNSET}']      # VERIF_W is always set to 'inner': expansion happens once
@@ -81,13 +81,16 @@ def run(ctx):
                     continue
                 urls.append(b + ''.join(t))
     sess.ask(['setenv', S('VERIF_W'), S('inner')])
+    ALWAYS = {'VERIF_W': 'inner', '3RD_V': 'third', '9': 'nine', '_U': 'under'}     # a name is any non-empty run of A-Z 0-9 _ : a digit may come first
+    for nm, vl in ALWAYS.items():
+        sess.ask(['setenv', S(nm), S(vl)])
     for envval in ENVS:
         if envval is None:
             sess.ask(['unsetenv', S('VERIF_V')])
-            env = {'VERIF_W': 'inner'}
+            env = dict(ALWAYS)
         else:
             sess.ask(['setenv', S('VERIF_V'), S(envval)])
-            env = {'VERIF_V': envval, 'VERIF_W': 'inner'}
+            env = dict(ALWAYS, VERIF_V=envval)
         rm.env_changed()
         sample = urls if envval in (None, 'a b') else ctx.rng.sample(urls, max(40, len(urls) // 6))
         for u in sample:
